@@ -40,6 +40,10 @@ func TestVerifC14GS(t *testing.T) {
 func TestVerifC14CC(t *testing.T) {
 	vk.Check(t, vk.Unit[CCPlan]{ID: "C14", Name: "cc", Rule: "real grpc.ClientConn (passthrough, pick_first, dialer handing out vpipe ends, raw codec, retries disabled) against scripted h2peer servers: " +
 		"connection i holds requests, sends GOAWAY (one- or two-phase) when its k-th stream (k in 1..5) arrives with last-stream-id = id of its j-th stream (0<=j<=k), answers 1..j, ignores the rest; " +
-		"1..5 (12) batches of 1..5 concurrent unary calls tagged with x-call metadata. non-trivial = some call was transparently retried (appeared twice on the wire)",
+		"1..5 (12) batches of 1..5 concurrent unary calls tagged with x-call metadata. Half of the plans are refusal sequences: the first 1..3 connections are refusing ones, each drawn from " +
+		"{GOAWAY below the k-th stream (k 1..2), RST_STREAM(REFUSED_STREAM)+GOAWAY, MAX_CONCURRENT_STREAMS=0 then GOAWAY(0) at quiescence (NewStream fails before HEADERS), GOAWAY(0) right after the preface, closed right after the preface}, " +
+		"1..3 batches of 1..3 calls, so one call meets several refusals in a row; a client stats.Handler counts attempts and created streams per call and a call may fail only after two streams were created for it " +
+		"(or if it was pending when a connection was cut without GOAWAY). non-trivial = some call was transparently retried (appeared twice on the wire) or was refused before HEADERS after an earlier attempt had created a stream " +
+		"(class never_sent_refusal_after_transparent_retry)",
 		Gen: genCCPlan, Run: ccRun})
 }
